@@ -610,6 +610,37 @@ class AReport:
                 run.error('obligation "%s" fails symbolically (residual %.3g at %s) but the compiled code satisfies the numeric oracle - inconclusive' % (
                     ob.name, spec['residual_symbolic'], spec['point']))
 
+    def selfcheck(self, prop, specs):
+        """translator validation of the formalisation: the numeric oracle (finite differences /
+        independent reference on the COMPILED code) is run at seeded points on the tree being
+        checked. It must agree with the symbolic verdict: a failure here while every obligation
+        was discharged means the formalisation or the oracle misrepresents the code -> exit 2."""
+        run = self.run
+        full = []
+        for sp in specs:
+            sp = dict(sp)
+            sp.setdefault('property', prop)
+            sp.setdefault('kind', 'numeric')
+            full.append(sp)
+        if not full:
+            return
+        res = common.run_replays(full, timeout=900)
+        bad = 0
+        for sp, r in zip(full, res):
+            if r.get('error'):
+                run.error('oracle self-check failed to run (%s): %s' % (sp.get('check'), r['error']))
+            elif r.get('violated'):
+                bad += 1
+                if not run.violations:
+                    run.error('numeric oracle reports a failure on the tree being checked where the symbolic check holds (%s at %s): %s' % (
+                        sp.get('check'), str(sp.get('point'))[:200], str(r.get('detail') or r.get('failed'))[:300]))
+        run.cov['oracle_selfcheck_points'] = run.cov.get('oracle_selfcheck_points', 0) + len(full)
+        run.cov['translator_validation_cases'] = run.cov.get('translator_validation_cases', 0) + len(full)
+
+    def points(self, n, names=None):
+        names = names if names is not None else [k for k in self.box if k != 'deg']
+        return [sample_point(names, self.box, self.rng, None) for _ in range(n)]
+
     def canary(self, name, obls, timeout_s=8, ctx=None, families=None):
         """a mutant must be refuted: some obligation gets a confirmed counterexample"""
         if families:
